@@ -46,7 +46,7 @@ ASSUMPTIONS = ["the sender's numbers increase in creation order and a request ca
                "window', 'always above everything accepted' and the forgery-independence of every verdict are checked",
                "a forgery that makes unprotect raise something other than a protection error is C11's business and "
                "counted as an anomaly here"]
-EXPECTED_PROBES = ["own_exchange_while_uninitialized", "accepted", "duplicate_rejected", "below_window_rejected", "jump_beyond_window", "forgery_ct",
+EXPECTED_PROBES = ["fs_io_error_fired", "own_exchange_while_uninitialized", "accepted", "duplicate_rejected", "below_window_rejected", "jump_beyond_window", "forgery_ct",
                    "forgery_piv", "forgery_rekey", "forgery_pivct", "forgery_before_genuine", "restart",
                    "echo_challenge", "echo_recovered", "stale_echo_rejected", "bogus_echo_rejected", "near_max_seqno",
                    "in_window_unseen_accepted", "uninitialized_start", "window_size_1",
